@@ -5,12 +5,12 @@
    open; endData drops the top-level strings allow_string_creation refuses); a well-formed document is
    a forest of [dnode]s and [brackets_f] its event stream; the filter is any SoupStrainer [sr], the
    semantics of its regular expressions / functions are parameters.  Universally quantified over
-   documents, filters, builder configurations (void / whitespace-preserving / string-container sets)
+   documents (elements called like the document object included), filters, builder configurations (void / whitespace-preserving / string-container sets)
    and multi-valued attribute tables.  [ctx_ok] is the open finding C16-rejected-context-ancestor:
    C16_rejected_context_refuted shows the statement is false of the code without it. *)
 From Coq Require Import List NArith ZArith Bool Arith String.
 From BS Require Import Base.Sexp Base.Types Base.Lit Gen.Tables Model.Heap Model.Edit Model.Build Model.Attrs Model.Search Model.Strainer
-                       Spec.StrainerSpec Proofs.StrainerProofs.
+                       Spec.BuildSpec Spec.StrainerSpec Proofs.StrainerProofs Proofs.StrainerSim.
 Import ListNotations.
 Local Open Scope nat_scope.
 Local Open Scope string_scope.
@@ -19,7 +19,7 @@ Local Open Scope string_scope.
    exactly the outermost elements of the full parse that the filter matches, each with its complete
    subtree, and nothing else *)
 Theorem C16_parse_only_outermost : forall pat_sem fun_sem cfg sr table ds,
-  tag_filter sr = true -> forallb (names_ok (c_root cfg)) ds = true ->
+  tag_filter sr = true ->
   forallb (single_valued sr table) ds = true -> forallb (ctx_ok pat_sem fun_sem sr cfg) ds = true ->
   zfeed pat_sem fun_sem (Some sr) cfg (brackets_f ds) =
   outermost_f (tag_matches pat_sem fun_sem sr table) (zfeed pat_sem fun_sem None cfg (brackets_f ds)).
@@ -36,7 +36,7 @@ Print Assumptions C16_raw_vs_processed.
 
 (* a filter with only string criteria drops every tag and keeps exactly the text runs it matches *)
 Theorem C16_string_only_filter : forall pat_sem fun_sem cfg sr ds,
-  string_filter sr = true -> forallb (names_ok (c_root cfg)) ds = true -> forallb (ctx_free cfg) ds = true ->
+  string_filter sr = true -> forallb (ctx_free cfg) ds = true ->
   zfeed pat_sem fun_sem (Some sr) cfg (brackets_f ds) =
   keep_strings pat_sem fun_sem sr (zfeed pat_sem fun_sem None cfg (brackets_f ds)).
 Proof. exact string_only_filter. Qed.
@@ -44,7 +44,7 @@ Print Assumptions C16_string_only_filter.
 
 (* a filter mixing both kinds of criteria keeps nothing *)
 Theorem C16_mixed_keeps_nothing : forall pat_sem fun_sem cfg sr ds,
-  mixed_filter sr = true -> forallb (names_ok (c_root cfg)) ds = true ->
+  mixed_filter sr = true ->
   zfeed pat_sem fun_sem (Some sr) cfg (brackets_f ds) = [].
 Proof. exact mixed_keeps_nothing. Qed.
 Print Assumptions C16_mixed_keeps_nothing.
@@ -52,15 +52,51 @@ Print Assumptions C16_mixed_keeps_nothing.
 (* the run of the machine on a document's events is the recursive denotation of the document, with
    or without a filter (every document, every filter) *)
 Theorem C16_run_is_denotation : forall pat_sem fun_sem po cfg ds,
-  forallb (names_ok (c_root cfg)) ds = true ->
-  zfeed pat_sem fun_sem po cfg (brackets_f ds) = dsem_list pat_sem fun_sem po cfg true false None [] ds.
+  zfeed pat_sem fun_sem po cfg (brackets_f ds) = dsem_list pat_sem fun_sem po cfg true (root_pw cfg) (root_sc cfg) [] ds.
 Proof. exact zfeed_dsem. Qed.
 Print Assumptions C16_run_is_denotation.
+
+
+(* ---- the frame machine of the theorems above IS the model of the code ----
+   Model.Strainer.feed_po is Model/Build.v's heap machine (every link, open_tag_counter, the two auxiliary
+   object stacks, exactly as the code keeps them) with the two parse_only checks inserted; for every
+   configuration, every filter (or none) and EVERY event sequence — well-formed or not — its final heap is
+   exactly the encoding of the frame machine's tree: node x (in creation order) has the parent, the payload
+   and the contents that the pre-order listing of [zfeed]'s result dictates, and only the document object is
+   left open.  So the three theorems above are statements about the model of the code itself. *)
+Theorem C16_frame_machine_is_heap_machine : forall pat_sem fun_sem po cfg evs,
+  let b := feed_po pat_sem fun_sem po cfg evs in
+  let nodes := root_node cfg :: flat_list cfg (Some 0) 1 (zfeed pat_sem fun_sem po cfg evs) in
+  nxt (b_st b) = List.length nodes /\
+  (forall x, x < List.length nodes ->
+     par (hp (b_st b) x) = sn_parent (nth x nodes (mksn None no_payload)) /\
+     b_pay b x = sn_pay (nth x nodes (mksn None no_payload)) /\
+     kids (hp (b_st b) x) = children_of nodes x) /\
+  b_stack b = [0] /\ b_cur b = Some 0.
+Proof. exact frame_machine_is_heap_machine. Qed.
+Print Assumptions C16_frame_machine_is_heap_machine.
+
+(* without a filter the machine with the checks is C03's machine (Model.Build.feed) itself *)
+Theorem C16_no_filter_is_build : forall pat_sem fun_sem cfg evs,
+  feed_po pat_sem fun_sem None cfg evs = feed cfg evs.
+Proof. exact feed_po_none. Qed.
+Print Assumptions C16_no_filter_is_build.
+
+(* hence, on the heaps: the selective parse's heap encodes the outermost matching elements of the tree
+   the full parse's heap encodes *)
+Theorem C16_parse_only_outermost_heap : forall pat_sem fun_sem cfg sr table ds,
+  tag_filter sr = true ->
+  forallb (single_valued sr table) ds = true -> forallb (ctx_ok pat_sem fun_sem sr cfg) ds = true ->
+  exists T,
+    encodes cfg (feed cfg (brackets_f ds)) T /\
+    encodes cfg (feed_po pat_sem fun_sem (Some sr) cfg (brackets_f ds)) (outermost_f (tag_matches pat_sem fun_sem sr table) T).
+Proof. exact parse_only_outermost_heap. Qed.
+Print Assumptions C16_parse_only_outermost_heap.
 
 (* OPEN FINDING: <pre><b> \n </b></pre> with SoupStrainer("b"), over the generated HTML tables *)
 Theorem C16_rejected_context_refuted :
   exists ds,
-    tag_filter sr_b = true /\ forallb (names_ok (c_root html_cfg)) ds = true /\
+    tag_filter sr_b = true /\
     forallb (single_valued sr_b (Some default_cdata_list_attributes)) ds = true /\
     zfeed no_pat16 no_fun16 (Some sr_b) html_cfg (brackets_f ds) <>
     outermost_f (tag_matches no_pat16 no_fun16 sr_b (Some default_cdata_list_attributes))
@@ -70,7 +106,7 @@ Print Assumptions C16_rejected_context_refuted.
 
 (* the hypotheses are satisfiable (and the filter keeps something) *)
 Theorem C16_domain_inhabited :
-  tag_filter sr_b_id = true /\ forallb (names_ok (c_root html_cfg)) doc_ok = true /\
+  tag_filter sr_b_id = true /\
   forallb (single_valued sr_b_id (Some default_cdata_list_attributes)) doc_ok = true /\
   forallb (ctx_ok no_pat16 no_fun16 sr_b_id html_cfg) doc_ok = true /\
   List.length (zfeed no_pat16 no_fun16 (Some sr_b_id) html_cfg (brackets_f doc_ok)) = 1.
